@@ -239,6 +239,9 @@ Section Protocol.
       end
     end.
 
+  Definition preds_exist (E : list edge) (w : world) (t : task) : bool :=
+    forallb (fun k => match state_of w t k with Some _ => true | None => false end) (pred_nodes E t).
+
   Definition all_exist (E : list edge) (w : world) (t : task) : bool :=
     forallb (fun k => match state_of w t k with Some _ => true | None => false end) (neighbours E t).
 
@@ -276,8 +279,11 @@ Section Protocol.
     else if pf then mkTres OPersist (if dry_run c then w else record_states E w t) []   (* a dry run records nothing *)
     (* execute.pytask_execute_task_setup *)
     else
+      (* a missing dependency is an error whatever else is the case - another node changed, --force
+         (F32, repaired: it used to be looked for only until the first change, and not at all under --force) *)
       let verdict :=
-        if force c then inr true
+        if negb (preds_exist E w t) then inl true
+        else if force c then inr true
         else check_loop w t (neighbours E t) (fun k => memN k (pred_nodes E t) || N.eqb k i) in
       match verdict with
       | inl _ => mkTres OFail w []
